@@ -138,7 +138,7 @@ def corpus_sets():
 
 MISTAKES = ["dup_pub_fn", "dup_pub_const", "dup_pub_struct", "type_error_in_importer", "error_in_imported",
             "unresolved_import", "syntax_error", "undefined_in_two_modules", "cyclic_consts", "cyclic_structs",
-            "cyclic_struct_const", "multibyte_then_error", "triple_duplicate", "lints_in_two_files", "hex_separator_then_error", "deep_nesting", "lexical_error_in_name_position", "skipped_declarations"]
+            "cyclic_struct_const", "multibyte_then_error", "triple_duplicate", "lints_in_two_files", "hex_separator_then_error", "deep_nesting", "lexical_error_in_name_position", "skipped_declarations", "long_line_then_error"]
 
 
 def generated_set(seed, i):
@@ -222,6 +222,12 @@ def generated_set(seed, i):
             files[sp.files[b]] += ("\nfn zz_skip(n: i32) -> i32\n{\n\tvar total = 0;\n\tif n == 1\n\t{\n\t\tgoto zz_after;\n\t}\n\tvar late: i32 = n * 2;\n"
                                    "\tif n == 2\n\t{\n\t\tgoto zz_after;\n\t}\n\tvar later: i32 = n * 3;\n\tif n == 3\n\t{\n\t\tgoto zz_after;\n\t}\n"
                                    "\ttotal = late + later;\n\tzz_after:\n\ttotal = total + late + later;\n\treturn: total\n}\n")
+        elif m == "long_line_then_error":
+            # diagnostics at the end of a 2 000-character line, after tabs and multi-byte text, with two labels on that line
+            b = rng.randrange(sp.k)
+            pad = " + ".join(["1"] * 600)
+            files[sp.files[b]] += ('\nfn zz_long()\n{\n\tvar s = "\u00e9\u00e9\t\u20ac"; var q: i32 = %s + zz_missing_far_right;\n'
+                                   '\tvar t: u8 = %s + true;\n}\n' % (pad, pad))
         elif m == "triple_duplicate":
             b = rng.randrange(sp.k)
             files[sp.files[b]] += "\nfn zz_tri()\n{\n}\n\nfn zz_tri()\n{\n}\n\nfn zz_tri()\n{\n}\n\nconst ZZ_TRI: i32 = 1;\nconst ZZ_TRI: i32 = 2;\nconst ZZ_TRI: i32 = 3;\n"
